@@ -599,6 +599,17 @@ def fold_programs(rng: random.Random, n: int):
         for a in small:
             T(f"foldu;{op};{a}", f"{{ RddV = {op}({a}); RyyV = ({op}{a}) + RuuV; }}", vk=f"foldu:{op}")
             T(f"foldu2;{op};{a}", f"{{ RddV = {op}{op}({a}); ReV = sizeof({op}{a}); }}", vk=f"foldu2:{op}")
+    # (2b) a folded value used again in a wider type, as a constant condition, and as operand of a second folded operator:
+    # the first result must already have the value it has in its own C type (wrap-around of unsigned 32-bit arithmetic)
+    tails = ["+ 0ULL", "+ 0LL", "- 0x8000ULL", "* 3LL", "+ RuuV"]
+    firsts = [f"({u}{a})" for u in ("-", "~") for a in ("1U", "0xffffffffU", "0x80000000U", "5", "0", "0x7fffffff", "1ULL", "0x80000000")]
+    firsts += [f"({a} {op} {b})" for op in ("+", "-", "*") for a, b in (("2U", "0x80000000U"), ("0", "1U"), ("0xffffffffU", "2"), ("0x10000", "0x10000U"), ("1", "2U"), ("0xffffffff", "0xffffffff"),
+                                                                         ("3U", "0x55555556U"), ("5", "7"), ("0x7fffffffU", "0x7fffffffU"), ("4294967296", "2U"))]
+    for f in firsts:
+        for k, tl in enumerate(tails):
+            T(f"fold2;{f};{k}", f"{{ RddV = {f} {tl}; }}", vk="fold2")
+        T(f"fold2;{f};cond", f"{{ RddV = {f} ? RuuV : RvvV; ReV = ({f} ? 1 : 2) + (({f} == 0) ? 4 : 8); }}", vk="fold2c")
+        T(f"fold2;{f};cmp", f"{{ ReV = ({f} < 1) + (({f} > 0x7fffffff) << 1) + (({f} < -1) << 2) + (({f} == 0xffffffffU) << 3); RddV = sizeof({f}); }}", vk="fold2c")
     lefts = ["-1", "-5", "0", "5", "-(1U)", "~0U", "-(5U)", "(0xffffffff + 1)", "0x7fffffff", "0x80000000", "-1LL", "~0ULL", "(2147483647 + 1)", "sizeof(RsV)", "(1 < 2)"]
     rights = ["0", "-1", "5U", "0U", "0LL", "5LL", "-1LL", "1ULL", "0xffffffff", "0xffffffffU", "4294967296", "-(1U)", "~0U"]
     for a in lefts:
